@@ -1918,6 +1918,103 @@ def o_race_slow_store_meta(p, cfg):
     return False, "a stalled store_metadata and a concurrent delete-all / delete_object do not disturb each other"
 
 
+def o_race_lock_order(p, cfg):
+    """C08 lock order: tag_object(pid, cid) is paused after it took the reference-pid lock and
+    before it takes the cid lock; delete_object(pid) runs meanwhile.  With one global lock order both
+    calls finish; an inverted order leaves both waiting for each other for good."""
+    import threading
+    store, props, root = new_store(cfg)
+    alg = layout.HASHLIB[props["store_algorithm"]]
+    content = b"lock order content"
+    cid = hashlib.new(alg, content).hexdigest()
+    store.store_object("pid-lo", tmp_input(root, content, "lo.bin"))
+    real = store._synchronize_object_locked_cids
+    at_point, gate = threading.Event(), threading.Event()
+
+    def paused(c):
+        if threading.current_thread().name == "T-tag" and not at_point.is_set():
+            at_point.set()
+            gate.wait(10)
+        return real(c)
+    store._synchronize_object_locked_cids = paused
+    res = {}
+    t1 = threading.Thread(target=lambda: res.__setitem__("tag", outcome(store.tag_object, "pid-lo", cid)),
+                          name="T-tag", daemon=True)
+    t1.start()
+    if not at_point.wait(10):
+        return None, "tag_object never reached the cid lock"
+    t2 = threading.Thread(target=lambda: res.__setitem__("del", outcome(store.delete_object, "pid-lo")),
+                          name="T-del", daemon=True)
+    t2.start()
+    t2.join(3)
+    gate.set()
+    t1.join(8)
+    t2.join(8)
+    if t1.is_alive() or t2.is_alive():
+        return True, ("tag_object(pid, cid) and delete_object(pid) wait for each other for good: one holds the "
+                      f"reference-pid lock and wants the cid lock, the other the reverse (still locked: "
+                      f"{_held_identifiers(store)})")
+    held = _held_identifiers(store)
+    if held:
+        return True, f"identifiers left locked after both calls returned: {held}"
+    return False, f"both calls finished ({res['tag'][0]}, {res['del'][0]})"
+
+
+def o_race_cid_pause(p, cfg):
+    """C07 W-CidRef / W-Obj: delete_object(pid1) of the sole reference is paused at the rename of the
+    (emptied) cid reference file; tag_object(pid2, cid) on the same cid must wait until the delete is
+    done - otherwise the delete removes a reference list that names pid2, and the object."""
+    import threading
+    store, props, root = new_store(cfg)
+    lay = layout.Layout(props)
+    alg = layout.HASHLIB[props["store_algorithm"]]
+    content = b"cid pause content"
+    cid = hashlib.new(alg, content).hexdigest()
+    store.store_object("pid-1", tmp_input(root, content, "c1.bin"))
+    cids_dir = os.path.join(os.path.abspath(props["store_path"]), "refs", "cids") + os.sep
+    entered, gate, done2 = threading.Event(), threading.Event(), threading.Event()
+    real_move = shutil.move
+
+    def slow_move(src, dst, *a, **k):
+        if threading.current_thread().name == "T-del" and not entered.is_set() and \
+                os.path.abspath(str(src)).startswith(cids_dir):
+            entered.set()
+            gate.wait(10)
+        return real_move(src, dst, *a, **k)
+    res = {}
+
+    def tag():
+        res["tag"] = outcome(store.tag_object, "pid-2", cid)
+        done2.set()
+    shutil.move = slow_move
+    try:
+        t1 = threading.Thread(target=lambda: res.__setitem__("del", outcome(store.delete_object, "pid-1")),
+                              name="T-del", daemon=True)
+        t1.start()
+        if not entered.wait(10):
+            gate.set()
+            t1.join(10)
+            return None, "delete_object never renamed the cid reference file"
+        t2 = threading.Thread(target=tag, name="T-tag", daemon=True)
+        t2.start()
+        early = done2.wait(1.5)
+        gate.set()
+        t1.join(10)
+        t2.join(10)
+    finally:
+        gate.set()
+        shutil.move = real_move
+    if early:
+        v = lay.view()
+        return True, ("tag_object(pid-2, cid) ran to completion while delete_object(pid-1) was between emptying "
+                      "and removing the cid reference file: the delete does not hold the cid lock there "
+                      f"(afterwards pid-2 bound={'pid-2' in v['P']}, listed={'pid-2' in v['C'].get(cid, [])}, "
+                      f"object present={cid in v['O']})")
+    return False, "the tagger waited until the delete was done"
+
+
+ORACLES["race_cid_pause"] = o_race_cid_pause
+ORACLES["race_lock_order"] = o_race_lock_order
 ORACLES["race_slow_store_meta"] = o_race_slow_store_meta
 ORACLES["uppercase_cid"] = o_uppercase_cid
 ORACLES["store_with_cwd_decoy"] = o_store_with_cwd_decoy
